@@ -101,7 +101,7 @@ struct Raster : Profile {
     std::vector<std::string> required_probes() const override
     {
         return {"partial-first-write", "strided-read", "legacy-rle", "legacy-read", "chunk-write", "chunk-read", "read-il-line", "read-il-component", "write-il-line",
-                "write-il-component", "fill-checked", "user-fill", "compressed", "chunked", "lut", "restart"};
+                "write-il-component", "fill-checked", "user-fill", "compressed", "chunked", "lut", "restart", "strided-write", "legacy-rle-rewrite"};
     }
 
     Plan generate(Rng &rng, bool thorough, uint64_t) override
@@ -110,6 +110,7 @@ struct Raster : Profile {
         p.seed          = rng.next();
         Rng kr          = rng.sub(1);
         p.knobs["ndds"] = kr.chance(0.5) ? kr.range(2, 8) : 16;
+        p.knobs["stridedw"] = kr.chance(0.5) ? 1 : 0; // writes take the generated strides too (sub-sampled writes)
         Rng  r = rng.sub(2);
         int  nops = (int)r.range(15, thorough ? 90 : 60), nimg = (int)r.range(1, NIMG);
         auto mkcreate = [&](int i) {
@@ -550,10 +551,17 @@ struct Raster : Profile {
                     else if (k == "read")
                         read_region(s, di, x0, y0, sx, sy, cx, cy, modn(o.arg(7), 3), "region in session");
                     else {
-                        // the property speaks of region writes (and region/strided reads): writes use stride 1
-                        cx = 1 + (int)(o.arg(5) % (m.w - x0));
-                        cy = 1 + (int)(o.arg(6) % (m.h - y0));
-                        write_region(s, di, x0, y0, 1, 1, cx, cy, (uint64_t)o.arg(7));
+                        // the property speaks of region writes (and region/strided reads): in half of the cases writes use
+                        // stride 1 only, in the other half (knob stridedw) the generated strides as well
+                        if (p.knob("stridedw", 0) && (sx > 1 || sy > 1)) {
+                            ctx.probe("strided-write");
+                            write_region(s, di, x0, y0, sx, sy, cx, cy, (uint64_t)o.arg(7));
+                        }
+                        else {
+                            cx = 1 + (int)(o.arg(5) % (m.w - x0));
+                            cy = 1 + (int)(o.arg(6) % (m.h - y0));
+                            write_region(s, di, x0, y0, 1, 1, cx, cy, (uint64_t)o.arg(7));
+                        }
                     }
                 }
             }
